@@ -308,7 +308,15 @@ def oracles (prev s : St) (impl : List (String × String)) (prevDials : Nat := 0
     if k.startsWith "p" && (k.drop 1).toString.toNat?.isSome then
       (commaList v).filterMap fun msg =>
         match msg.splitOn ":" with
-        | ["have", i] => if !(bfBits.getD (parseNat! i) false) then some s!"C01 have-for-missing-piece piece={i}" else none
+        | ["have", i] =>
+          let pk := (k.drop 1).toString.toNat?.getD 0
+          if !(bfBits.getD (parseNat! i) false) then some s!"C01 have-for-missing-piece piece={i}"
+          -- the client skips peers it knows to have the piece: telling one of them means it has forgotten what the
+          -- peer announced (and will not ask it for anything either)
+          else if ((prev.peers.find? (·.k = pk)).map fun p => p.has.getD (parseNat! i) false).getD false &&
+                  ((s.peers.find? (·.k = pk)).map fun p => p.has.getD (parseNat! i) false).getD false then
+            some s!"C10 peer-announcement-forgotten peer={pk} piece={i}"
+          else none
         | ["piece", i, _, _, verdict] =>
           let pk := (k.drop 1).toString.toNat?.getD 0
           -- choked before and after this op, and the piece was never granted as allowed-fast
